@@ -22,10 +22,10 @@ func init() {
 	core.Register(&core.Check{
 		ID:    "C20",
 		Level: "exploration",
-		Rule: "bounded-exhaustive product: every pattern of weight <= W over the atom alphabet of its ring (atoms, assertions, 8 quantifiers, 3 group kinds, alternation incl. empty alternatives) " +
-			"x every flag string of the ring x every subject of <= N symbols over the ring's subject alphabet x every start position 0..len+1 (g/y) x the operation suite, each on the variants " +
-			"A=P, B=P(?=) x {pristine, own exec, subclass, patched prototype}. An evaluation is one (pattern, flags, subject) triple (all starts, operations and variants). " +
-			"A (pattern, flags) pair is non-trivial when A is really backed by Go regexp (translation + compile succeed, replicated from compileRegexp and cross-checked against the engine through the c20 hook in development) while B is backed by regexp2, and at least one subject produced a match; distinct by construction.",
+		Rule: "bounded-exhaustive product per ring: every pattern of weight <= W over the ring's atom alphabet (atoms, assertions, 8 greedy/lazy quantifiers, 3 group kinds, alternation incl. empty alternatives) " +
+			"x every flag string of the ring x every subject of <= N symbols over the ring's subject alphabet x every start position 0..len+1 (g/y), through exec/test/match/matchAll/replace(string, function)/search/split " +
+			"on the variants A=P, B=P(?=) x {pristine, own exec, subclass} and on patched-prototype runtimes (ring sizes under coverage.ring_*). An evaluation is one (pattern, flags, subject) triple (all starts, operations, variants). " +
+			"A (pattern, flags) pair is non-trivial when A is really backed by Go regexp (decision of compileRegexp replicated with parser.TransformRegExp + regexp.Compile and cross-checked against the engine through the c20 hook) while B is backed by regexp2 - both engines ran on the same inputs - and at least one subject matched; distinct by construction.",
 		Run:    run,
 		Replay: replay,
 	})
@@ -44,6 +44,7 @@ type Case struct {
 	WantB   bool     `json:"with_lookahead_variant"`
 	Starts  bool     `json:"all_starts"`
 	Invalid bool     `json:"pattern_must_be_rejected,omitempty"`
+	Beyond  bool     `json:"include_sticky_replace_beyond_subject,omitempty"`
 	Detail  *bad     `json:"detail,omitempty"`
 }
 
@@ -68,6 +69,7 @@ type ring struct {
 	wantB    bool
 	starts   bool // true: every start position 0..len+1 (g/y; 0 and 1 otherwise); false: lastIndex 0 only
 	invalid  bool // the patterns of this ring are syntactically invalid: the constructor must throw SyntaxError
+	beyond   bool // include sticky non-global replace from lastIndex > length (can loop forever in regexp2 on the pinned tree)
 }
 
 var allOps = []string{"exec", "test", "match", "matchAll", "replaceStr", "replaceFn", "search", "split"}
@@ -172,7 +174,7 @@ func (t *jsrt) build(p, f string, wantB bool, kinds []string) (m made, err error
 	return m, nil
 }
 
-func (t *jsrt) run(m made, s subject, ops []string, starts bool, onlyK int) (out goja.Value, err error) {
+func (t *jsrt) run(m made, s subject, ops []string, starts bool, onlyK int, beyond bool) (out goja.Value, err error) {
 	defer func() {
 		if x := recover(); x != nil {
 			err = fmt.Errorf("Go panic: %v", x)
@@ -187,7 +189,7 @@ func (t *jsrt) run(m made, s subject, ops []string, starts bool, onlyK int) (out
 		}
 		t.opsV[key] = ov
 	}
-	return t.go_(goja.Undefined(), m.v, t.subject(s), ov, t.r.ToValue(starts), t.r.ToValue(onlyK))
+	return t.go_(goja.Undefined(), m.v, t.subject(s), ov, t.r.ToValue(starts), t.r.ToValue(onlyK), t.r.ToValue(beyond))
 }
 
 func mustJSON(v interface{}) string {
@@ -254,7 +256,7 @@ func evalPF(r reporter, e *env, rg *ring, p, f string) (matched bool) {
 		if dumpFile != nil {
 			dumpMismatch(sig, what)
 		}
-		c := Case{Ring: rg.name, Pattern: p, Flags: f, Patch: patch, Kinds: rg.kinds, Ops: rg.ops, WantB: rg.wantB, Starts: rg.starts, Invalid: rg.invalid, Detail: b}
+		c := Case{Ring: rg.name, Pattern: p, Flags: f, Patch: patch, Kinds: rg.kinds, Ops: rg.ops, WantB: rg.wantB, Starts: rg.starts, Invalid: rg.invalid, Beyond: rg.beyond, Detail: b}
 		if s != nil {
 			c.Subject, c.Shown = s.units, s.String()
 		}
@@ -317,7 +319,7 @@ func evalPF(r reporter, e *env, rg *ring, p, f string) (matched bool) {
 		for _, patch := range rg.patches {
 			t := e.rt(patch)
 			e.cur.Store(&inFlight{rg: rg, p: p, f: f, s: s, patch: patch, started: time.Now()})
-			out, err := t.run(mades[patch], *s, rg.ops, rg.starts, -1)
+			out, err := t.run(mades[patch], *s, rg.ops, rg.starts, -1, rg.beyond)
 			e.cur.Store(nil)
 			if err != nil {
 				op, k, vn := "?", -1, "?"
@@ -456,6 +458,7 @@ var corpus = []corpusCase{
 	{p: "a*[^a]", f: "g", subj: []uint16{'a', '\n'}},
 	{p: `\W+\B`, f: "g", subj: []uint16{0xd83d, 0xde00, 'a'}},       // engine|quantified atom followed by \b or \B
 	{p: ".\U0001F600", f: "g", subj: []uint16{'A', 0xd83d, 0xde00}}, // engine|surrogate literal
+	{p: "(a*)*", f: "g", subj: []uint16{'a'}},                       // engine|quantified capturing group with nullable body
 	{p: "a*", f: "g", subj: []uint16{'a'}, paths: true},             // fast-path|global match/replace
 	{p: `\b`, f: "gy", subj: []uint16{'a'}, paths: true},            // fast-path|global+sticky
 	{p: "a", f: "y", subj: []uint16{0xe9, 'a'}, paths: true},        // fast-path|replace|re2+sticky
@@ -475,7 +478,7 @@ func runCorpus(r *core.Run, envs []*env) bool {
 			rg := &ring{name: "corpus", patterns: []string{c.p}, flags: []string{c.f}, subjects: []subject{{units: c.subj}},
 				ops: opsEngine, kinds: kindsPlain, patches: []int{0}, wantB: true, invalid: c.invalid}
 			if c.paths {
-				rg.ops, rg.kinds, rg.patches, rg.starts = allOps, kindsAll, []int{0, 1, 2}, true
+				rg.ops, rg.kinds, rg.patches, rg.starts, rg.beyond = allOps, kindsAll, []int{0, 1, 2}, true, true
 			}
 			evalPF(r, envs[w], rg, c.p, c.f)
 		}
@@ -545,6 +548,12 @@ func run(r *core.Run) {
 	}
 	defer debug.SetGCPercent(debug.SetGCPercent(gcp))
 	rings := buildRings(r)
+	if os.Getenv("C20_BEYOND") != "" { // once the replace defect is fixed: include the excluded cell in every ring
+		for _, rg := range rings {
+			rg.beyond = true
+		}
+		r.Assume("C20_BEYOND set: sticky replace from lastIndex > length included in the rings")
+	}
 	if fn := os.Getenv("C20_CPUPROFILE"); fn != "" { // development aid
 		f, _ := os.Create(fn)
 		pprof.StartCPUProfile(f)
@@ -564,6 +573,8 @@ func run(r *core.Run) {
 		rings = keep
 		r.Assume("C20_RINGS=" + sel + " (partial run)")
 	}
+	r.Assume("which engine backs an object is decided by a replica of goja.compileRegexp (parser.TransformRegExp + regexp.Compile); cross-checked offline on all ring patterns through repo_hook/verif_c20.go")
+	r.Assume("sticky non-global replace from lastIndex > length is left out of the rings (known finding: panic / endless native loop in regexp2) and covered by the corpus only")
 	envs := make([]*env, r.Workers)
 	for i := range envs {
 		envs[i] = &env{}
@@ -667,7 +678,7 @@ func parallelWatched(r *core.Run, envs []*env, n, chunk int64, fn func(worker in
 					continue
 				}
 				aborted.Store(true)
-				cs := Case{Ring: c.rg.name, Pattern: c.p, Flags: c.f, Patch: c.patch, Kinds: c.rg.kinds, Ops: c.rg.ops, WantB: c.rg.wantB, Starts: c.rg.starts,
+				cs := Case{Ring: c.rg.name, Pattern: c.p, Flags: c.f, Patch: c.patch, Kinds: c.rg.kinds, Ops: c.rg.ops, WantB: c.rg.wantB, Starts: c.rg.starts, Beyond: c.rg.beyond,
 					Subject: c.s.units, Shown: c.s.String()}
 				step := "?"
 				func() {
@@ -692,7 +703,7 @@ func replay(r *core.Run, raw json.RawMessage) {
 	if err := json.Unmarshal(raw, &c); err != nil {
 		panic(err)
 	}
-	rg := &ring{name: c.Ring, patterns: []string{c.Pattern}, flags: []string{c.Flags}, ops: c.Ops, kinds: c.Kinds, patches: []int{0}, wantB: c.WantB, starts: c.Starts, invalid: c.Invalid}
+	rg := &ring{name: c.Ring, patterns: []string{c.Pattern}, flags: []string{c.Flags}, ops: c.Ops, kinds: c.Kinds, patches: []int{0}, wantB: c.WantB, starts: c.Starts, invalid: c.Invalid, beyond: c.Beyond}
 	if c.Patch != 0 {
 		rg.patches = []int{0, c.Patch}
 	}
